@@ -1,9 +1,12 @@
 #!/bin/bash
-# re-run the checks against every confirmed seeded change (checks-only), 3 workers, one property's worktree per worker at a time
+# re-run the checks against every confirmed seeded change (checks-only), 3 workers, one property's worktree per worker at a time.
+# SEED_UNTIL_CAUGHT=1: the property's own check first, the others only while nothing has caught the change.
+# usage: tools/seedmatrix.sh [properties to skip ...]
 cd "$(dirname "$0")/.."
-worker() { for p in "$@"; do for d in seeded/$p-*; do v=${d##*-}; python3 tools/seeded.py --checks-only /tmp/seed/$p $v >> .work/matrix-$p.log 2>&1; done; done; }
+SKIP=" $* "
+worker() { for p in "$@"; do case "$SKIP" in *" $p "*) continue;; esac; for d in seeded/$p-*; do v=${d##*-}; python3 tools/seeded.py --checks-only /tmp/seed/$p $v >> .work/matrix-$p.log 2>&1; done; done; }
 rm -f .work/matrix-*.log
-worker C01 C04 C07 C10 C13 C16 C19 &
-worker C02 C05 C08 C11 C14 C17 &
+worker C19 C04 C07 C10 C13 C16 C01 &
+worker C02 C08 C11 C14 C17 C05 &
 worker C03 C06 C09 C12 C15 C18 &
 wait
